@@ -1039,6 +1039,7 @@ class Project:
         if copytree is None:
             copytree = shutil.copytree
         dst = self.open_job(job.statepoint())
+        existed = os.path.lexists(dst.path)
         try:
             copytree(job.path, dst.path)
         except OSError as error:
@@ -1047,6 +1048,10 @@ class Project:
             elif error.errno == errno.ENOENT:
                 raise ValueError("Source job not initialized.")
             else:
+                if not existed:
+                    # Do not leave a partial copy behind that validates against its
+                    # id; remove only what this call created.
+                    shutil.rmtree(dst.path, ignore_errors=True)
                 raise
         return dst
 
